@@ -355,6 +355,26 @@ def _other_forms(ctx, c, impl):
         forms["apply(BytesIO document)"] = lambda: JSONPatch(copy.deepcopy(c["ops"])).apply(io.BytesIO(doc_txt.encode("utf-8")))
     if not any("\\" in str(op.get(k, "")) for op in c["ops"] for k in ("path", "from")):
         forms["JSONPatch(ops, unicode_escape=False)"] = lambda: JSONPatch(copy.deepcopy(c["ops"]), unicode_escape=False).apply(copy.deepcopy(c["doc"]))
+    def builder_from_parts():
+        # the builder given pointers that were built from parts (every token held as a string), as `from_parts` and
+        # `RelativeJSONPointer.to` make them
+        from jsonpath import JSONPointer
+        pb = JSONPatch()
+        for op in copy.deepcopy(c["ops"]):
+            ptr = lambda k: JSONPointer.from_parts(_toks(op[k]), unicode_escape=False)   # noqa: E731
+            name = op["op"]
+            if name in ("add", "replace", "test"):
+                getattr(pb, name)(ptr("path"), op["value"])
+            elif name == "remove":
+                pb.remove(ptr("path"))
+            else:
+                getattr(pb, name)(ptr("from"), ptr("path"))
+        return pb.apply(copy.deepcopy(c["doc"]))
+    if all(op.get("op") in ("add", "replace", "test", "remove", "move", "copy") and "path" in op and (op["op"] not in ("move", "copy") or "from" in op)
+           and (op["op"] not in ("add", "replace", "test") or "value" in op) for op in c["ops"]) \
+            and not any("\\" in str(op.get(k, "")) for op in c["ops"] for k in ("path", "from")):
+        forms["builder with pointers built by from_parts"] = builder_from_parts
+
     def after_other_options():
         # a patch means what its own options make of its paths, whatever patches were built before from the same path texts
         for kw in ({"uri_decode": True}, {"unicode_escape": False}, {"uri_decode": True, "unicode_escape": False}):
